@@ -744,7 +744,10 @@ pub fn main(args: &Args) -> ! {
             let text = String::from_utf8_lossy(&out.stdout);
             let v: serde_json::Value = text.lines().rev().find_map(|l| serde_json::from_str(l).ok()).unwrap_or_else(|| machinery(&format!("no result from {bin} c16: {}", String::from_utf8_lossy(&out.stderr))));
             let n = v["executions"].as_u64().unwrap_or(0);
-            if n == 0 || v["blocked_waits_baseline"].as_u64().unwrap_or(0) < 2 {
+            // (the guard speaks only when nothing was found: violations reported by the parts above, or
+            // by this one, are a verdict and take precedence over "this part was vacuous")
+            let found_here = !v["violations"].as_array().map_or(true, |a| a.is_empty());
+            if (n == 0 || v["blocked_waits_baseline"].as_u64().unwrap_or(0) < 2) && rep.violations.is_empty() && !found_here {
                 machinery("vacuity guard: the async datagram part explored nothing, or fewer than two send_datagram_wait calls ever blocked");
             }
             rep.evaluations += n;
